@@ -563,6 +563,7 @@ class Dump:
         self.consts = {}        # name -> Function (kind const/static)
         self.allocs = {}        # alloc id -> dict(static=name | bytes=..., text=...)
         self.promoted = {}      # 'promoted[N] in NAME' -> Function
+        self.const_inline = {}  # name -> const text (one-line items)
         self._load()
 
     def _load(self):
@@ -593,6 +594,11 @@ class Dump:
                         fn.ret = m.group(4)
                         self.consts[m.group(3)] = fn
                 i = j + 1
+                continue
+            m = re.match(r'(const|static)( mut)? (.*?): (.*?) = const (.*);$', ln)
+            if m and not ln.startswith(' '):
+                self.const_inline[m.group(3)] = m.group(5)
+                i += 1
                 continue
             m = re.match(r'(alloc\d+) \((.*)\) \{(.*)$', ln)
             if m:
